@@ -1,6 +1,6 @@
 SPECIFICATION Spec
 CONSTANTS Kind = "forms"
- NMax = 8
+ NMax = 16
  DMax = 6
  LMax = 0
  ScaleSet = {0}
